@@ -115,7 +115,13 @@ class cpr {
                 const backend_params &bprm = backend_params()
            ) : prm(prm), n(backend::rows(K))
         {
-            init(std::make_shared<build_matrix>(K), bprm,
+            // The input matrix is copied here; sort the rows of the copy
+            // (as amg does): the block-row merge below and the global
+            // preconditioner expect the row entries to be sorted by column.
+            auto K_ptr = std::make_shared<build_matrix>(K);
+            sort_rows(*K_ptr);
+
+            init(K_ptr, bprm,
                     std::integral_constant<bool, math::static_rows<value_type>::value == 1>());
         }
 
@@ -163,6 +169,7 @@ class cpr {
               )
         {
             auto K_ptr = std::make_shared<build_matrix>(K);
+            sort_rows(*K_ptr);
             // Update global preconditioner
             S = std::make_shared<SPrecond>(K_ptr, prm.sprecond, bprm);
             if(update_transfer_ops){
